@@ -27,7 +27,6 @@ const (
 )
 
 func (c13) ID() string             { return "C13" }
-func (c13) Level() string          { return "fault_enumeration" }
 func (c13) Race() bool             { return true }
 func (c13) CrashIsViolation() bool { return true }
 func (c13) CaseTimeout(string) int { return 180 }
@@ -115,7 +114,7 @@ func attachments(h *subrig.History, res *fw.Result, witness func(map[string]any)
 		sort.Ints(idxs)
 		for _, si := range idxs {
 			if prev, ok := at[si]; ok && prev.inst != i.ID {
-				res.Violate("sharing.moved", fmt.Sprintf("subscriber s%d was seen attached to Start instances i%d and i%d", si, prev.inst, i.ID), nil, witness(nil))
+				violate(res, "sharing.moved", fmt.Sprintf("subscriber s%d was seen attached to Start instances i%d and i%d", si, prev.inst, i.ID), nil, witness(nil))
 				continue
 			}
 			if prev, ok := at[si]; !ok || mem[si] < prev.since {
@@ -217,24 +216,24 @@ func Check(res *fw.Result, h *subrig.History) {
 	// ---- sharing
 	for _, a := range h.Anomalies {
 		if strings.Contains(a, "attached to Start instance") {
-			res.Violate("sharing.unequal-share", a, nil, witness(nil))
+			violate(res, "sharing.unequal-share", a, nil, witness(nil))
 		}
 	}
 	perKey := map[int]int{}
 	creators := map[int]int{}
 	for _, i := range h.Instances {
 		if i.Key < 0 {
-			res.Violate("sharing.unknown-start", fmt.Sprintf("Start instance i%d has input %q / header %q which no subscriber asked for", i.ID, i.Input, i.Header), nil, witness(nil))
+			violate(res, "sharing.unknown-start", fmt.Sprintf("Start instance i%d has input %q / header %q which no subscriber asked for", i.ID, i.Input, i.Header), nil, witness(nil))
 			continue
 		}
 		perKey[i.Key]++
 		if i.Creator != nil {
 			if prev, ok := creators[i.Creator.Idx]; ok {
-				res.Violate("start.twice", fmt.Sprintf("Start was called twice (i%d, i%d) for the trigger created by s%d", prev, i.ID, i.Creator.Idx), nil, witness(nil))
+				violate(res, "start.twice", fmt.Sprintf("Start was called twice (i%d, i%d) for the trigger created by s%d", prev, i.ID, i.Creator.Idx), nil, witness(nil))
 			}
 			creators[i.Creator.Idx] = i.ID
 			if i.Creator.Key != i.Key {
-				res.Violate("sharing.unequal-share", fmt.Sprintf("Start instance i%d of key %d was created for subscriber s%d of key %d", i.ID, i.Key, i.Creator.Idx, i.Creator.Key), nil, witness(nil))
+				violate(res, "sharing.unequal-share", fmt.Sprintf("Start instance i%d of key %d was created for subscriber s%d of key %d", i.ID, i.Key, i.Creator.Idx, i.Creator.Key), nil, witness(nil))
 			}
 		}
 	}
@@ -291,7 +290,7 @@ func Check(res *fw.Result, h *subrig.History) {
 				}
 				lo, hi := max64(a.from, b.from), min64(a.to, b.to)
 				if lo < hi {
-					res.Violate("sharing.split", fmt.Sprintf("s%d (on i%d) and s%d (on i%d) have the same key and were both live during (%d,%d) but do not share one upstream subscription", a.s.Idx, a.inst, b.s.Idx, b.inst, lo, hi),
+					violate(res, "sharing.split", fmt.Sprintf("s%d (on i%d) and s%d (on i%d) have the same key and were both live during (%d,%d) but do not share one upstream subscription", a.s.Idx, a.inst, b.s.Idx, b.inst, lo, hi),
 						map[string]string{"stale_actor": stale}, witness(nil))
 				}
 			}
@@ -307,7 +306,7 @@ func Check(res *fw.Result, h *subrig.History) {
 			}
 			res.Count("messages_key_checked", 1)
 			if h.Events[eid-1].Key != s.Key || (key != "" && key != h.Keys[s.Key].Name) {
-				res.Violate("cross-talk", fmt.Sprintf("s%d (key %s) received event e%d of key %s", s.Idx, h.Keys[s.Key].Name, eid, h.Keys[h.Events[eid-1].Key].Name), nil, witness(map[string]any{"message": m.Data}))
+				violate(res, "cross-talk", fmt.Sprintf("s%d (key %s) received event e%d of key %s", s.Idx, h.Keys[s.Key].Name, eid, h.Keys[h.Events[eid-1].Key].Name), nil, witness(map[string]any{"message": m.Data}))
 			}
 		}
 	}
@@ -318,16 +317,16 @@ func Check(res *fw.Result, h *subrig.History) {
 		mt := map[string]string{"phase": phase, "stale_actor": stale}
 		switch {
 		case strings.HasPrefix(pending, "registry"):
-			res.Violate("registry-leak", fmt.Sprintf("%s: %s remains (triggers, subscriptions, connections)", phase, pending), mt, witness(nil))
-		case strings.Contains(pending, "not completed") || strings.Contains(pending, "has not returned"):
-			res.Violate("not-completed", fmt.Sprintf("%s: %s", phase, pending), mt, witness(nil))
+			violate(res, "registry-leak", fmt.Sprintf("%s: %s remains (triggers, subscriptions, connections)", phase, pending), mt, witness(nil))
+		case strings.Contains(pending, "not completed") || strings.Contains(pending, "has not returned") || strings.Contains(pending, "completions outstanding"):
+			violate(res, "not-completed", fmt.Sprintf("%s: %s", phase, pending), mt, witness(nil))
 		case strings.HasPrefix(pending, "Start context"):
-			res.Violate("ctx-not-cancelled", fmt.Sprintf("%s: %s", phase, pending), mt, witness(nil))
+			violate(res, "ctx-not-cancelled", fmt.Sprintf("%s: %s", phase, pending), mt, witness(nil))
 		case strings.HasPrefix(pending, "Start of instance") || strings.Contains(pending, "calls into the source"):
-			res.Violate("start-not-returned", fmt.Sprintf("%s: %s", phase, pending), mt, witness(nil))
+			violate(res, "start-not-returned", fmt.Sprintf("%s: %s", phase, pending), mt, witness(nil))
 		case pending == "subscription counter":
 			mt["counter"] = "subscription"
-			res.Violate("counter-drift", fmt.Sprintf("%s: SubscriptionCountInc total %d != SubscriptionCountDec total %d", phase, h.SubInc, h.SubDec), mt, witness(nil))
+			violate(res, "counter-drift", fmt.Sprintf("%s: SubscriptionCountInc total %d != SubscriptionCountDec total %d", phase, h.SubInc, h.SubDec), mt, witness(nil))
 		case pending == "trigger counter":
 			mt["counter"] = "trigger"
 			mt["inc_raced_removal"] = fmt.Sprint(incRacedRemoval(h, at))
@@ -335,9 +334,9 @@ func Check(res *fw.Result, h *subrig.History) {
 			if h.TrigInc < h.TrigDec {
 				mt["sign"] = "inc<dec"
 			}
-			res.Violate("counter-drift", fmt.Sprintf("%s: TriggerCountInc total %d != TriggerCountDec total %d", phase, h.TrigInc, h.TrigDec), mt, witness(nil))
+			violate(res, "counter-drift", fmt.Sprintf("%s: TriggerCountInc total %d != TriggerCountDec total %d", phase, h.TrigInc, h.TrigDec), mt, witness(nil))
 		default:
-			res.Violate("not-quiescent", fmt.Sprintf("%s: %s", phase, pending), mt, witness(nil))
+			violate(res, "not-quiescent", fmt.Sprintf("%s: %s", phase, pending), mt, witness(nil))
 		}
 	}
 	if q.PreTrig >= 0 {
@@ -397,7 +396,7 @@ func Check(res *fw.Result, h *subrig.History) {
 		res.Count("completions_checked_for_cause", 1)
 		if !caused {
 			mt := map[string]string{"stale_teardown": fmt.Sprint(staleCause != "")}
-			res.Violate("spurious-completion", fmt.Sprintf("s%d was completed at t=%d although nothing that may remove it had begun (no own removal, writer failure, shutdown, nor a source finish / start failure of its own trigger)%s", s.Idx, d, ifs(staleCause != "", "; a trigger that was gone before it subscribed did: "+staleCause, "")), mt, witness(nil))
+			violate(res, "spurious-completion", fmt.Sprintf("s%d was completed at t=%d although nothing that may remove it had begun (no own removal, writer failure, shutdown, nor a source finish / start failure of its own trigger)%s", s.Idx, d, ifs(staleCause != "", "; a trigger that was gone before it subscribed did: "+staleCause, "")), mt, witness(nil))
 		}
 	}
 
@@ -646,7 +645,7 @@ func porcupineCheck(res *fw.Result, h *subrig.History, at map[int]attach, stale 
 			if len(ds) > 120 {
 				ds = ds[:120]
 			}
-			res.Violate("porcupine-illegal", fmt.Sprintf("the subscribe/unsubscribe/source-finish history of key %s is not linearizable against the shared-trigger reference-count model", h.Keys[key].Name),
+			violate(res, "porcupine-illegal", fmt.Sprintf("the subscribe/unsubscribe/source-finish history of key %s is not linearizable against the shared-trigger reference-count model", h.Keys[key].Name),
 				map[string]string{"stale_actor": stale}, witness(map[string]any{"operations": ds}))
 		default:
 			res.Count("porcupine_unknown", 1)
@@ -666,4 +665,20 @@ func dec(s string) pstate {
 		st.used = p[2]
 	}
 	return st
+}
+
+// violate reports at most three violations per kind and case (a broken tree can produce thousands
+// in one history); the rest is counted.
+func violate(res *fw.Result, kind, msg string, match map[string]string, detail any) {
+	n := 0
+	for _, v := range res.Violations {
+		if v.Kind == kind {
+			n++
+		}
+	}
+	if n >= 3 {
+		res.Count("violations_not_listed", 1)
+		return
+	}
+	res.Violate(kind, msg, match, detail)
 }
